@@ -1,7 +1,8 @@
 (** Boolean / bit-mask comparators evaluated by the correspondence check of C11:
-    the real StorageLayout::new / map_object_id against the model (Layout.v), the
-    model-free oracle (LayoutSpec.v) and the known-finding classifiers. *)
-From Rocfl Require Import Base.Bytes Model.Layout Model.LayoutSpec Model.KnownC11.
+    the real StorageLayout::new / map_object_id against the model (Layout.v) and the
+    model-free oracle (LayoutSpec.v), with the conditions on the external inputs the
+    theorems of Props/C11.v assume.  (No known-finding class is left.) *)
+From Rocfl Require Import Base.Bytes Model.Layout Model.LayoutSpec.
 Open Scope N_scope.
 
 Definition res_bytes_eqb (a c : res bytes) : bool :=
@@ -25,8 +26,8 @@ Definition mku (cs : list (bytes * bytes)) (lower upper : bytes) : ustr :=
 Definition new_class (r : res cfg) : N := match r with Ok _ => 0 | Err => 1 | Panic => 2 end.
 
 (** bits: 0 model = code; 1 oracle (documents) = code; 2 the documents decide this
-    configuration; 3 accepted parameters = documented parameters; known classes:
-    4 0007 defaults, 5 array form; 6 configuration strings well-formed *)
+    configuration; 3 accepted parameters = documented parameters; 4 configuration
+    strings well-formed *)
 Definition new_mask (dbg : bool) (e : ext) (r : raw) (obs : N) : N :=
   let m := new dbg e r in
   let sp := LayoutSpec.parse e r in
@@ -34,10 +35,11 @@ Definition new_mask (dbg : bool) (e : ext) (r : raw) (obs : N) : N :=
   bit 1 (match sp with Some _ => obs =? 0 | None => obs =? 1 end) +
   bit 2 (cfg_determined e r) +
   bit 3 (match m, sp with Ok c, Some sc => same_params c sc | _, _ => true end) +
-  bit 4 (c11_cfg_0007_defaults e r) + bit 5 (c11_cfg_array r) + bit 6 (raw_wf r).
+  bit 4 (raw_wf r).
 
 (** bits: 0 model = code; 1 oracle = code (vacuous when the documents forbid the
-    configuration); 2 inputs well-formed; known class: 3 case folding index *)
+    configuration); 2 inputs_ok (hypothesis of C11_map_is_spec: UTF-8, digest, and for
+    0006/0007 the case information); 3 its part case_info_ok alone (Layout.unicode_ok) *)
 Definition path_mask (c : cfg) (sp : option cfg) (id : ustr) (dg : bytes) (obs : res bytes) : N :=
   bit 0 (res_bytes_eqb (Layout.map c id dg) obs) +
   bit 1 (match sp with
@@ -45,7 +47,7 @@ Definition path_mask (c : cfg) (sp : option cfg) (id : ustr) (dg : bytes) (obs :
          | None => true
          end) +
   bit 2 (inputs_ok c id dg) +
-  bit 3 (c11_casefold c id).
+  bit 3 (case_info_ok c id).
 
 Definition check_layout (dbg : bool) (e : ext) (r : raw) (obs_new : N)
            (ids : list (ustr * bytes * res bytes)) : list N :=
